@@ -135,6 +135,15 @@ func (s *Schema) initialize(db *DB, o Object) (err error) {
 		s.ObjectIndex = newIndex(s.Fields)
 	}
 
+	// the schema gets its own asynchronous writes settings, the ones of
+	// the caller may be shared by several schemas while the routine flushing
+	// pending writes must be started once per schema
+	if s.AsyncWrites != nil {
+		aw := *s.AsyncWrites
+		aw.routineStarted = false
+		s.AsyncWrites = &aw
+	}
+
 	return
 }
 
